@@ -318,4 +318,18 @@ inductive CallPath (g : List (String × List Nat)) : Nat → Nat → Prop where
   | one {u v} : Calls g u v → CallPath g u v
   | step {u v w} : Calls g u v → CallPath g v w → CallPath g u w
 
+/-! ### left-associative chains (`a + b + c …`, `t, u, v …`, `t JOIN u JOIN v …`): the loops of
+`parse_or/and/additive/multiplicative_expression` and `parse_from_clause_body` wrap the previous
+result into a new node per link, so the tree depth is the number of links; `check_chain_length`
+is called with the incremented counter before every wrap. -/
+
+inductive ChainErr where
+  | tooLong
+  deriving Repr, DecidableEq, Inhabited
+
+/-- `links` = links already wrapped (= depth of the tree built so far), `n` = links still in the input -/
+def chainLoop (maxLinks : Nat) : (links : Nat) → (n : Nat) → Except ChainErr Nat
+  | links, 0 => .ok links
+  | links, n + 1 => if links + 1 > maxLinks then .error .tooLong else chainLoop maxLinks (links + 1) n
+
 end VibeProof.Lexer
